@@ -96,7 +96,15 @@ macro_rules! impl_saturating {
             type Output = Self;
             #[inline]
             fn shl(self, rhs: u32) -> Self {
-                Self(self.0.checked_shl(rhs).unwrap_or(<$t>::MAX))
+                // out of bounds as soon as a 1 bit would be shifted out
+                // (`checked_shl` only checks the shift amount)
+                Self(if self.0 == 0 {
+                    0
+                } else if rhs > self.0.leading_zeros() {
+                    <$t>::MAX
+                } else {
+                    self.0 << rhs
+                })
             }
         }
 
